@@ -69,6 +69,7 @@ type c12Plan struct {
 	TimeoutMs  int           `json:"read_timeout_ms"`
 	Conns      []c12Conn     `json:"conns"`
 	Exhaustive int           `json:"exhaustive_cut,omitempty"`
+	Shared     bool          `json:"tcp_connections_share_one_listener,omitempty"`
 }
 
 func genStream(g *simrt.Choices, maxLine int) []byte {
@@ -165,6 +166,15 @@ func scenC12(x *Exec) {
 		p.Exhaustive = cut
 		p.Conns[0].Cuts = []int{cut, p.Conns[0].Len - cut}
 	}
+	ntcp := 0
+	for _, c := range p.Conns {
+		if c.Kind == "tcp" {
+			ntcp++
+		}
+	}
+	// as in the relay, all connections of one listener are served by one handler object; the lines of the connections are
+	// then told apart by content only (compared as a multiset)
+	p.Shared = ntcp >= 2 && g.Bool(0.5)
 	x.Out.Sample = p
 	cfg0.Horizon = time.Hour
 	cfg0.MaxSteps = 4000000 // a 64 KiB line delivered one byte at a time is a few hundred thousand steps
@@ -187,15 +197,28 @@ func scenC12(x *Exec) {
 		var tcpDisps []*capDispatcher
 		s.Spawn("relay-boot", "relay", "relay1", func() {
 			initRelayGlobals()
+			sharedDisp := &capDispatcher{}
+			if p.Shared {
+				l := input.NewListener("0.0.0.0:2100", time.Duration(p.TimeoutMs)*time.Millisecond, input.NewPlain(sharedDisp))
+				if err := l.Start(); err != nil {
+					berr = err
+				}
+			}
 			for i, c := range p.Conns {
 				if c.Kind != "tcp" {
 					continue
 				}
 				d := &capDispatcher{}
+				if p.Shared {
+					d = sharedDisp
+				}
 				for len(tcpDisps) <= i {
 					tcpDisps = append(tcpDisps, nil)
 				}
 				tcpDisps[i] = d
+				if p.Shared {
+					continue
+				}
 				l := input.NewListener(fmt.Sprintf("0.0.0.0:%d", 2100+i), time.Duration(p.TimeoutMs)*time.Millisecond, input.NewPlain(d))
 				if err := l.Start(); err != nil {
 					berr = err
@@ -229,7 +252,11 @@ func scenC12(x *Exec) {
 			switch c.Kind {
 			case "tcp":
 				s.Spawn(fmt.Sprintf("client%d", i), "client", "harness", func() {
-					ra, _ := simnet.ResolveTCPAddr("tcp", fmt.Sprintf("10.9.9.9:%d", 2100+i))
+					port := 2100 + i
+					if p.Shared {
+						port = 2100
+					}
+					ra, _ := simnet.ResolveTCPAddr("tcp", fmt.Sprintf("10.9.9.9:%d", port))
 					conn, err := nw.DialTCP(nil, ra)
 					if err != nil {
 						s.Infra("dial: %v", err)
@@ -313,6 +340,8 @@ func scenC12(x *Exec) {
 			return true
 		}
 		nlines := 0
+		var wantShared [][]byte
+		var sharedGot [][]byte
 		for i, c := range p.Conns {
 			if c.Kind != "tcp" || res[i].conn == nil {
 				continue
@@ -324,7 +353,18 @@ func scenC12(x *Exec) {
 				s.Probe("c12.connection_cut_by_read_timeout")
 			}
 			nlines += len(want)
+			if p.Shared {
+				wantShared = append(wantShared, want...)
+				sharedGot = tcpDisps[i].Lines
+				continue
+			}
 			if !cmpSeq(fmt.Sprintf("tcp connection %d (%d of %d bytes consumed, writes %v)", i, consumed, len(c.data), c.Cuts), tcpDisps[i].Lines, want, true) {
+				return
+			}
+		}
+		if p.Shared {
+			s.Probe("c12.shared_listener")
+			if !cmpSeq(fmt.Sprintf("%d tcp connections of one listener", ntcp), sharedGot, wantShared, false) {
 				return
 			}
 		}
@@ -481,7 +521,23 @@ func scenC13(x *Exec) {
 		p.Conns = append(p.Conns, pc)
 		cds[i] = cd
 	}
-	x.Out.Sample = map[string]interface{}{"plan": p, "python": corpus.Python}
+	// as in the relay, all connections of the pickle listener are served by one handler object.  Datapoints are then told apart
+	// by content only, which needs a run without the two listed og-rek divergences (they are checked position by position)
+	shared := nconn >= 2 && g.Bool(0.6)
+	for _, cd := range cds {
+		all := append(append([]string(nil), cd.want...), cd.wantTail...)
+		for k, w := range all {
+			proto := cd.tailProto
+			if k < len(cd.protos) {
+				proto = cd.protos[k]
+			}
+			f := strings.Fields(w)
+			if (proto == 0 && !isASCII(w)) || (proto >= 1 && len(f) == 3 && (strings.HasPrefix(f[1], "-") || strings.HasPrefix(f[2], "-"))) {
+				shared = false
+			}
+		}
+	}
+	x.Out.Sample = map[string]interface{}{"plan": p, "python": corpus.Python, "connections_share_one_listener": shared}
 	cfg0.Horizon = time.Hour
 	prop := "C13"
 
@@ -494,8 +550,19 @@ func scenC13(x *Exec) {
 		disps := make([]*capDispatcher, nconn)
 		s.Spawn("relay-boot", "relay", "relay1", func() {
 			initRelayGlobals()
+			sharedDisp := &capDispatcher{}
+			if shared {
+				l := input.NewListener("0.0.0.0:2200", 2*time.Minute, input.NewPickle(sharedDisp))
+				if err := l.Start(); err != nil {
+					berr = err
+				}
+			}
 			for i := range cds {
 				disps[i] = &capDispatcher{}
+				if shared {
+					disps[i] = sharedDisp
+					continue
+				}
 				l := input.NewListener(fmt.Sprintf("0.0.0.0:%d", 2200+i), 2*time.Minute, input.NewPickle(disps[i]))
 				if err := l.Start(); err != nil {
 					berr = err
@@ -515,7 +582,11 @@ func scenC13(x *Exec) {
 			i, cd := i, cd
 			s.Spawn(fmt.Sprintf("client%d", i), "client", "harness", func() {
 				send := func(data []byte, cuts []int) {
-					ra, _ := simnet.ResolveTCPAddr("tcp", fmt.Sprintf("10.9.9.9:%d", 2200+i))
+					port := 2200 + i
+					if shared {
+						port = 2200
+					}
+					ra, _ := simnet.ResolveTCPAddr("tcp", fmt.Sprintf("10.9.9.9:%d", port))
 					conn, err := nw.DialTCP(nil, ra)
 					if err != nil {
 						s.Infra("dial: %v", err)
@@ -543,6 +614,40 @@ func scenC13(x *Exec) {
 		simrt.Quiesce()
 		total := 0
 		knownClass, knownMsg := "", ""
+		if shared {
+			s.Probe("c13.shared_listener")
+			ws, gs := map[string]int{}, map[string]int{}
+			inv := 0
+			for _, cd := range cds {
+				for _, w := range append(append([]string(nil), cd.want...), cd.wantTail...) {
+					ws[w]++
+					total++
+				}
+				inv += cd.invalid + cd.invTail
+			}
+			for _, l := range disps[0].Lines {
+				gs[string(l)]++
+			}
+			for w, n := range ws {
+				if gs[w] != n {
+					s.Fail(prop+":different", "%d connections of one listener: datapoint %q was processed %d times, the frames contain it %d times", nconn, w, gs[w], n)
+					return
+				}
+			}
+			for l, n := range gs {
+				if ws[l] != n {
+					s.Fail(prop+":different", "%d connections of one listener: %s was processed (%d times) but is in no frame (%d)", nconn, Short([]byte(l)), n, ws[l])
+					return
+				}
+			}
+			if disps[0].Invalid != inv {
+				s.Fail(prop+":invalid-count", "%d connections of one listener: %d items were counted invalid, the frames contain %d structurally invalid items", nconn, disps[0].Invalid, inv)
+				return
+			}
+			x.Out.Nontrivial = total >= 2
+			x.Out.StateSig = fmt.Sprintf("conns=%d datapoints=%d shared", nconn, total)
+			return
+		}
 		for i, cd := range cds {
 			want := append(append([]string(nil), cd.want...), cd.wantTail...)
 			got := disps[i].Lines
